@@ -32,6 +32,19 @@ func main() {
 				}
 			}
 		}
+	case "races":
+		repo := "/repo"
+		if len(os.Args) > 2 {
+			repo = os.Args[2]
+		}
+		eng, err := govc.LoadRepo(repo)
+		if err != nil {
+			fmt.Fprintln(os.Stderr, err)
+			os.Exit(2)
+		}
+		for _, r := range eng.AllSpawnRaces() {
+			fmt.Printf("%s starts %s, which reads %s; assigned again at %s\n", r.Spawner, r.Closure, r.Var, eng.Prog.Fset.Position(r.Store.Pos()))
+		}
 	case "ssa":
 		dumpSSA(os.Args[2:])
 	case "selftest":
